@@ -186,6 +186,71 @@ def sentence_text(sent):
     return out
 
 
+# ---------------------------------------------------------------- left recursion hidden behind nullable prefixes
+_M, _P, _T, _B, _AT, _I = ("op", "-", '"'), ("op", "+", '"'), ("op", "~", '"'), ("op", "!", '"'), ("op", "@", '"'), ("tok", "INT")
+
+
+def nullable_constructs():
+    """expressions that can match the empty input, the nullable part placed at every position"""
+    q = ("?", _M)
+    return [q, ("*", _M), ("true",), ("space",), ("?", ("?", _M)), ("?", ("alt", [_M, _P])),
+            ("alt", [q, _P]), ("alt", [_P, q]),                                        # nullable alternative first / last of 2
+            ("alt", [q, _P, _T]), ("alt", [_P, q, _T]), ("alt", [_P, _T, q]),           # first / middle / last of 3
+            ("alt", [("*", _M), _P]), ("alt", [_P, ("true",)]), ("alt", [("true",), _P]),
+            ("seq", [q, ("?", _P)]), ("seq", [("*", _M), ("alt", [q, _T])]),
+            ("alt", [_P, ("seq", [q, ("*", _T)])]), ("alt", [("seq", [q, ("?", _T)]), _P]),
+            ("alt", [_P, ("alt", [_T, q])]), ("alt", [("alt", [q, _T]), _P])]           # nested choices
+
+
+def leftrec_templates(N, N2=None):
+    """grammars in which `item` is reachable from itself in a first position behind the nullable N, the
+    recursion passing through an option of a Choice (so that CheckConflicts must reject it)"""
+    N2 = N2 or N
+    item, other = ("ref", "item"), ("ref", "other")
+    body = ("seq", [N, item, _B])
+    return [
+        [("item", ("alt", [_I, body]))],                                  # recursive alternative last
+        [("item", ("alt", [body, _I]))],                                  # first
+        [("item", ("alt", [_I, body, _AT]))],                             # middle
+        [("doc", ("seq", [item, ("?", _B)])), ("item", ("alt", [_I, body]))],           # reached from another rule
+        [("item", ("alt", [_I, ("seq", [N, other, _B])])), ("other", ("alt", [item, _AT]))],      # indirect through a choice
+        [("item", ("alt", [_I, ("seq", [N, other, _B])])), ("other", ("seq", [N2, item]))],       # indirect through a sequence
+        [("item", ("alt", [_I, ("seq", [("alt", [("op", "(", '"'), N]), ("alt", [("seq", [N2, item]), _AT]), _B])]))],  # choice in sequence in choice
+        [("item", ("alt", [_I, ("seq", [("?", ("seq", [N, _AT])), N2, item])]))],       # two nullable items before the reference
+    ]
+
+
+LEFTREC_INPUTS = ["x", "", "+", "5", "- 5 !", "~ @", "( 5"]
+
+
+def leftrec_family():
+    out = []
+    for N in nullable_constructs():
+        out += leftrec_templates(N)
+    return out
+
+
+def gen_nullable(rng, d):
+    leaf = [_M, _P, _T, ("kw", "a"), ("tok", "IDENT")]
+    k = rng.below(7 if d > 0 else 4)
+    if k == 0:
+        return ("?", rng.choice(leaf))
+    if k == 1:
+        return ("*", rng.choice(leaf))
+    if k == 2:
+        return ("true",)
+    if k == 3:
+        return ("?", ("seq", [rng.choice(leaf), rng.choice(leaf)]))
+    if k == 4:                      # a choice with exactly one nullable alternative at a random index
+        n = 2 + rng.below(2)
+        opts = [rng.choice(leaf) for _ in range(n)]
+        opts[rng.below(n)] = gen_nullable(rng, d - 1)
+        return ("alt", opts)
+    if k == 5:
+        return ("seq", [gen_nullable(rng, d - 1), gen_nullable(rng, d - 1)])
+    return ("?", gen_nullable(rng, d - 1))
+
+
 # ---------------------------------------------------------------- python reference (README semantics)
 class Loop(Exception):
     pass
@@ -385,10 +450,11 @@ def ref_result(rules, model_line):
 
 
 # ---------------------------------------------------------------- pipeline
-def run_pipeline(ctx, cases, watchdog="4s"):
+def run_pipeline(ctx, cases, watchdog="4s", always_run=()):
     """cases: list of (grammar_text_bytes, input_text_bytes).
     -> (model_lines, model_out, impl_rows) ; impl_rows[i] = [result, verdict] or None when the implementation was
-    not run on case i because the model says the match does not terminate (FUEL)."""
+    not run on case i because the model says the match does not terminate (FUEL).  Indices in `always_run` are run
+    on the implementation whatever the model says (they come first, each protected by the watchdog)."""
     model = ctx.model("tplm")
     impl = ctx.harness("tplm")
     inp = "".join("%s\t%s\n" % (g.hex(), t.hex()) for g, t in cases)
@@ -407,7 +473,8 @@ def run_pipeline(ctx, cases, watchdog="4s"):
         return None
     mout = [l.split("\t")[0] for l in mraw]
     ctx.notes["productive_flags"] = [(l.split("\t") + ["-"])[1] for l in mraw]
-    todo = [i for i in range(len(cases)) if mout[i] != "FUEL"]
+    forced = set(always_run)
+    todo = sorted(forced) + [i for i in range(len(cases)) if mout[i] != "FUEL" and i not in forced]
     rows = [None] * len(cases)
     pos = 0
     hangs = []
@@ -428,7 +495,7 @@ def run_pipeline(ctx, cases, watchdog="4s"):
         rows[bad] = ["HANG" if lines and lines[-1].startswith("HANG") else "CRASH(rc=%d)" % rc, "match-does-not-terminate"]
         hangs.append(bad)
         pos += k + 1
-        if len(hangs) > 5:
+        if len(hangs) > 7:
             for i in todo[pos:]:            # enough evidence: do not spend more watchdog time
                 rows[i] = ["NOTRUN(after %d hangs)" % len(hangs), "ok"]
             break
